@@ -142,13 +142,15 @@ def run(ck):
     if not quick:
         pass
     backends = ["s64", "s32"] if quick else ["s64", "s32", "f64", "f32", "v2"]
-    bins = build_many([(b, True, "release", ()) for b in backends], jobs=3)
+    # ".nz": built without the zeroize feature (batch_invert has a cfg(feature = "zeroize") site in its body)
+    specs = [(b, ()) for b in backends] + [("s64", ("nz",))]
+    bins = build_many([(b, True, "release", f) for b, f in specs], jobs=3)
     traces = []
     ops = gen(ck.rng, quick)
     sp = os.path.join(ck.workdir, "script.ndjson")
     write_script(sp, ops)
-    for b in backends:
-        cid = cfg_id(b)
+    for b, f in specs:
+        cid = cfg_id(b, True, "release", f)
         tp = os.path.join(ck.workdir, cid + ".trace.ndjson")
         run_driver(bins[cid], cid, sp, tp)
         traces.append((cid, tp))
